@@ -6,23 +6,29 @@ the sibling functions still named."""
 import re, sys, os
 path = os.path.join(os.path.dirname(os.path.dirname(os.path.abspath(__file__))), 'coq', 'Parser.v')
 src = open(path).read()
-src = re.sub(r'\(\* BEGIN UNFOLD \*\).*?\(\* END UNFOLD \*\)\n', '', src, flags=re.S)
-start = src.index('Fixpoint parse_stmt ')
-end = src.index('(* ---------- top-level statements that only read the constants ---------- *)')
-block = src[start:end].rstrip()
-assert block.endswith('.')
-block = block[:-1]
-parts = re.split(r'\n(?:\(\*[^\n]*\*\)\n)?with ', '\n' + block[len('Fixpoint '):])
-parts[0] = parts[0].lstrip('\n')
-lemmas = []
-for p in parts:
-    m = re.match(r'(\w+) \(fuel : nat\)(.*?)\{struct fuel\}\s*:\s*(.*?):=\s*match fuel with O => Fuel \| S f =>(.*)\bend\s*$', p, re.S)
-    assert m, p[:200]
-    name, binders, ty, body = m.group(1), m.group(2).strip(), m.group(3), m.group(4)
-    names = []
-    for b in re.findall(r'\(([^()]*?):', binders):
-        names += b.split()
-    lemmas.append('Lemma %s_unfold f %s :\n  %s (S f) %s =\n%s.\nProof. reflexivity. Qed.\n' % (name, binders, name, ' '.join(names), body.rstrip()))
-out = src[:end] + '(* BEGIN UNFOLD *)\n' + '\n'.join(lemmas) + '(* END UNFOLD *)\n' + src[end:]
-open(path, 'w').write(out)
-print('generated', len(lemmas), 'unfolding lemmas')
+src = re.sub(r'\(\* BEGIN UNFOLD[^\n]*\*\).*?\(\* END UNFOLD \*\)\n', '', src, flags=re.S)
+BLOCKS = [('Fixpoint list_value ', 'Definition movement_value'),
+          ('Fixpoint bool_expr ', '\n(* ---------- statements ---------- *)'),
+          ('Fixpoint parse_stmt ', '(* ---------- top-level statements that only read the constants ---------- *)')]
+total = 0
+for (smark, emark) in BLOCKS:
+    start = src.index(smark)
+    end = src.index(emark, start)
+    block = src[start:end].rstrip()
+    assert block.endswith('.'), block[-80:]
+    block = block[:-1]
+    parts = re.split(r'\n(?:\(\*[^\n]*\*\)\n)?with ', '\n' + block[len('Fixpoint '):])
+    parts[0] = parts[0].lstrip('\n')
+    lemmas = []
+    for p in parts:
+        m = re.match(r'(\w+) \(fuel : nat\)(.*?)\{struct fuel\}\s*:\s*(.*?):=\s*match fuel with O => Fuel \| S f =>(.*)\bend\s*$', p, re.S)
+        assert m, p[:200]
+        name, binders, ty, body = m.group(1), m.group(2).strip(), m.group(3), m.group(4)
+        names = []
+        for b in re.findall(r'\(([^()]*?):', binders):
+            names += b.split()
+        lemmas.append('Lemma %s_unfold f %s :\n  %s (S f) %s =\n%s.\nProof. reflexivity. Qed.\n' % (name, binders, name, ' '.join(names), body.rstrip()))
+    src = src[:end] + '\n(* BEGIN UNFOLD ' + parts[0].split(' ')[0] + ' *)\n' + '\n'.join(lemmas) + '(* END UNFOLD *)\n' + src[end:]
+    total += len(lemmas)
+open(path, 'w').write(src)
+print('generated', total, 'unfolding lemmas')
